@@ -386,11 +386,7 @@ def run(tier, seed):
         for (v, desc), c in zip(ptvals, codes):
             hist[c] = hist.get(c, 0) + 1
             if c == 0: continue
-            if c == 3:
-                violations.append(Violation("%s raised ZeroDivisionError where the dense operation is defined (model agrees with the implementation; specification rejects)" % desc["op"],
-                                            case=desc, oracle="spec_op (dense specification on denotations)", corr="C06 model check pt_check",
-                                            call="PatternedTensor.%s" % desc["op"], finding_key="div_default_python_zero_division"))
-            elif c < 10:
+            if c < 10:
                 violations.append(Violation("%s: result rejected by the dense specification applied to the operands' denotations (verdict %d)" % (desc["op"], c),
                                             case=desc, oracle="spec_op", corr="C06 model check pt_check", call="PatternedTensor.%s" % desc["op"]))
             else:
@@ -429,7 +425,6 @@ OPEN_ITEMS = [
     "binary / commutative / sub refinement with broadcasting, and sizes_agree as a consequence of typing (the theorems carry the boolean guards no_broadcast and sizes_agree)",
     "refinement theorems for getitem, default_to, freshen/clone, post_init: modelled and model-checked through pt_check, proofs open",
     "C06_repr_inv preservation by the constructors: replaced by the run-time monitor and C06_repr_inv_wf / C06_repr_inv_injective",
-    "reciprocal laws of div on xval (C06_sub_like_refines_partial is generic in them)",
     "where / stack / any / log_softmax / reshape / view / copy_ / project / dim_to_dense / iteration / tolist / to / exp / expm1 / log / logaddexp: correspondence only (no Coq model)",
 ]
 
@@ -471,6 +466,6 @@ def replay(path):
 MANIFEST = dict(
     level="proof",
     text="Coq theorems about a Gallina model of fggs/indices.py's axis algebra (eval bound, stride = affine form, index inverts eval, pattern injectivity = at most one backing element, unify soundness, antiunify generalises both arguments, bounded completeness of unify on typed axes) and of PatternedTensor (to_dense = denote, view operations, unary maps, binary operations through expansion); the model is tied to /repo by running both on generated typed axes/patterns, brute-force specifications judge every implementation output; every listed tensor operation and compositions of up to three are compared with torch on the denoted dense tensors; every PatternedTensor constructed inside the library is checked against the extracted representation invariant.",
-    note="Trusted: Coq kernel + vm_compute, extraction cross-checked against vm_compute, the Python harness (numbering of PhysicalAxis objects, independent evaluator of axes), torch's dense kernels as reference. Known findings: F16/F16b (defaults computed with Python scalar arithmetic raise where torch returns inf/nan), F21 (nan_to_num_ puts the float64 maximum into float32 tensors), F22 (Python max drops a NaN default in relu_/maximum). Open: unbounded unify completeness; binary operations with broadcasting; several operations are correspondence-only.",
+    note="Trusted: Coq kernel + vm_compute, extraction cross-checked against vm_compute, the Python harness (numbering of PhysicalAxis objects, independent evaluator of axes), torch's dense kernels as reference. The findings F1, F16, F16b, F21, F22 of this check are repaired in /repo and reverting any of the repairs is reported as a VIOLATION with a concrete failing input; one known finding remains (F23: exp/expm1 compute the default in float64, which overflows float32 tensors for defaults between 88.7 and 709.8). Open: unbounded unify completeness; binary operations with broadcasting; several operations are correspondence-only.",
     technique="Coq proof (model + theorems) + model/implementation correspondence with brute-force specification oracles + differential testing against torch on denotations + runtime invariant monitor",
     design_ref="DESIGN.md section 6, C06; Appendix A.6; Appendix C")
